@@ -176,7 +176,7 @@ def componentOf (parents : List (List Nat)) (c : Nat) : List Nat :=
 def retainedOK (parents : List (List Nat)) (ret : List Nat) : Bool :=
   match ret with
   | [] => parents.isEmpty
-  | c :: _ => ret == componentOf parents c &&
+  | c :: _ => decide (c < parents.length) && ret == componentOf parents c &&
       (List.range parents.length).all fun d => (componentOf parents d).length ≤ ret.length
 
 end Pl
